@@ -96,7 +96,7 @@ func main() {
 	h.partC(rng)
 	rep.Extra["partC_s"] = time.Since(t0).Seconds()
 	// ---------------- part D
-	cw := vh.NewCases(a, "From Coq Require Import List NArith ZArith Bool.\nFrom Verif Require Import C29.Model.\nImport ListNotations.", "case", "mismatches", 40)
+	cw := vh.NewCases(a, "From Coq Require Import List NArith ZArith Bool.\nFrom Verif Require Import C29.Model.\nImport ListNotations.", "case", "mismatches", map[bool]int{false: 40, true: 100}[a.Thorough()])
 	h.partD(rng.Fork(), cw)
 	cw.Close()
 	rep.Extra["partD_s"] = time.Since(t0).Seconds()
